@@ -567,7 +567,11 @@ func writeEvidence(pf *PropFile, tier string, seed int, evs []harnessEvidence, s
 		"wall_s":      wall,
 		"violations":  nViol,
 	}
-	os.MkdirAll(filepath.Join(verifDir(), "evidence"), 0o755)
+	evDir := filepath.Join(verifDir(), "evidence")
+	if d := os.Getenv("VERIF_EVIDENCE_DIR"); d != "" {
+		evDir = d // seeded-change runs must not overwrite the evidence of the real tree
+	}
+	os.MkdirAll(evDir, 0o755)
 	b, _ := json.MarshalIndent(ev, "", " ")
-	os.WriteFile(filepath.Join(verifDir(), "evidence", pf.Property+".json"), b, 0o644)
+	os.WriteFile(filepath.Join(evDir, pf.Property+".json"), b, 0o644)
 }
